@@ -175,6 +175,77 @@ def h_tiles_iter(shape, res, flipx, flipy):
     prove("no_duplicates", len({(int(a) if not isinstance(a, symx.Sym) else a.__index__(), int(b) if not isinstance(b, symx.Sym) else b.__index__()) for a, b in idxs}) == len(idxs))
 
 
+class _Rects:
+    """stand-in for a (multi-)polygon: a union of axis-aligned rectangles in the grid's CRS.  What
+    the library asks of a geometry here -- to_crs, boundingbox, disjoint(tile footprint) -- is
+    answered exactly (closed sets: touching is not disjoint, as in GEOS)"""
+
+    def __init__(self, rects, crs):
+        self.rects, self.crs = rects, crs
+
+    def to_crs(self, crs, *a, **kw):
+        return self
+
+    @property
+    def boundingbox(self):
+        from odc.geo.geom import BoundingBox
+
+        def ext(vals, lt):
+            r = vals[0]
+            for v in vals[1:]:
+                if lt(v, r):
+                    r = v
+            return r
+
+        ls, bs, rs, ts = zip(*self.rects)
+        return BoundingBox(ext(ls, lambda a, b: a < b), ext(bs, lambda a, b: a < b), ext(rs, lambda a, b: a > b), ext(ts, lambda a, b: a > b), self.crs)
+
+    def disjoint(self, other):
+        ob = other.boundingbox
+        for l, b, r, t in self.rects:
+            if not (r < ob.left or ob.right < l or t < ob.bottom or ob.top < b):
+                return False
+        return True
+
+
+def h_polygon_query(shape, res, flipx, flipy, nrect, arrangement="any", rows=2):
+    """tiles_from_geopolygon with a (multi-part) stand-in geometry: a tile is returned iff its
+    footprint meets one of the parts -- tiles of the bounding box that lie between the parts are
+    not returned, tiles meeting a part in positive area always are"""
+    from .c16 import setup_fakegeom
+
+    setup_fakegeom()
+    g, ox, oy = mk_gs(shape, res, flipx, flipy, origin="zero")
+    rx, ry = F(res[0]), F(res[1])
+    sx, sy = shape[1] * abs(rx), shape[0] * abs(ry)
+    rects = []
+    for k in range(nrect):
+        l, b, w, h = Real(f"l{k}"), Real(f"b{k}"), Real(f"w{k}"), Real(f"h{k}")
+        # parts at most half a tile wide/high inside a window of 3 x 2 tiles around the origin (room for an empty tile between two parts)
+        if rows == 1:  # quick tier: the parts sit in one row of tiles
+            assume(And(w > 2 * TOL, h > 2 * TOL, w <= sx / 2, h <= sy / 4, l >= -sx, l <= 3 * sx / 2, b >= sy / 8, b <= sy / 2))
+        else:
+            assume(And(w > 2 * TOL, h > 2 * TOL, w <= sx / 2, h <= sy / 2, l >= -sx, l <= 3 * sx / 2, b >= -sy / 2, b <= sy / 2))
+        rects.append((l, b, l + w, b + h))
+    if nrect == 2 and arrangement != "any":
+        # the second part relative to the first (the cases cover every pair up to renaming the parts)
+        (l0, b0, r0, t0), (l1, b1, r1, t1) = rects
+        assume({"right": And(l1 >= r0, b1 < t0, b0 < t1), "above": And(b1 >= t0, l1 < r0, l0 < r1), "diagonal": And(l1 >= r0, Or(b1 >= t0, t1 <= b0)),
+                "overlapping": And(l1 < r0, l0 < r1, b1 < t0, b0 < t1)}[arrangement])
+    q = _Rects(rects, g.crs)
+    got = [t for t, _ in g.tiles_from_geopolygon(q)]
+    jx, jy = Int("jx"), Int("jy")
+    _, xs, ys = tile_extent(g, jx, jy)
+    x0, x1 = _ord(xs, rx > 0)
+    y0, y1 = _ord(ys, ry > 0)
+    listed = Or(*[And(jx == t[0], jy == t[1]) for t in got]) if got else False
+    meets_area = Or(*[And(x1 > ex(l) + TOL, x0 < ex(r) - TOL, y1 > ex(b) + TOL, y0 < ex(t) - TOL) for l, b, r, t in rects])
+    apart = And(*[Or(x1 < ex(l), x0 > ex(r), y1 < ex(b), y0 > ex(t)) for l, b, r, t in rects])
+    prove("every_tile_meeting_a_part_is_returned", listed, when=meets_area)
+    prove("no_tile_apart_from_every_part_is_returned", Not(listed) if isinstance(listed, symx.Sym) else not listed, when=apart)
+
+
+
 class _FakeBox:
     def __init__(self, bbox, crs):
         self.boundingbox = bbox
@@ -278,6 +349,10 @@ OBLIGATIONS = [
        functions=("odc.geo.gridspec.GridSpec.idx_bounds",), **B),
     Ob("A5_tiles_iter", h_tiles_iter, tiered(CFG_Q[:2], CFG_T[:4]), descr="tiles(bbox) enumerates exactly the idx_bounds range with the matching GeoBoxes (boxes up to one tile wide, case split)",
        functions=("odc.geo.gridspec.GridSpec.tiles",), bounds="query box at most one tile wide near the origin (<= 2x2 tiles by case split)", setup=setup),
+    Ob("A9_polygon_query", h_polygon_query, tiered([dict(CFG_Q[0], nrect=2, arrangement=a, rows=1) for a in ("right", "overlapping")], [dict(c, nrect=1) for c in CFG_T[:4]] + [dict(c, nrect=2, arrangement=a) for c in CFG_T[:4] for a in ("right", "above", "diagonal", "overlapping")]),
+       descr="tiles_from_geopolygon with a (multi-part) stand-in geometry: every tile meeting a part in positive area is returned, no tile apart from every part is (tiles of the bounding box between the parts are not)",
+       functions=("odc.geo.gridspec.GridSpec.tiles_from_geopolygon", "odc.geo.gridspec.GridSpec.tiles", "odc.geo.gridspec.GridSpec.idx_bounds"),
+       bounds="1-2 rectangles at most one tile wide near the origin (<= a few tiles by case split)", stubs=("union-of-rectangles geometry answering to_crs / boundingbox / disjoint exactly (GEOS and PROJ are outside the claim)", "vertex-list tile footprints"), setup=setup, timeout_ms=20000),
     Ob("A6_from_sample_tile", h_from_sample, tiered(CFG_Q, CFG_T), descr="a grid rebuilt from any one tile (footprint, index, shape, flips) has the same footprint for every index",
        functions=("odc.geo.gridspec.GridSpec.from_sample_tile", "odc.geo.math.Bin1D.from_sample_bin"), stubs=("object exposing .crs/.boundingbox in place of the shapely polygon",), **B),
     Ob("A7_web_tiles", h_web_tiles, tiered([dict(z=z) for z in (0, 1, 2, 7, 14, 22)], [dict(z=z) for z in range(0, 23)]),
